@@ -48,14 +48,22 @@ def _shapes(tier):
     return sh
 
 
+def flag_shards(tier):
+    """quick: stop/dry-run symbolic in one job; thorough: the four flag combinations as separate jobs (parallelism)."""
+    if tier == "quick":
+        return [("", {"stop": "sym", "dry_run": "sym"})]
+    return [(".s%dd%d" % (s_, d_), {"stop": bool(s_), "dry_run": bool(d_)}) for s_ in (0, 1) for d_ in (0, 1)]
+
+
 def jobs(tier, seed):
     js = []
     base = ["verdict", "steps"]
     for name, shapes in _shapes(tier).items():
-        js.append(Job("run.%s" % name, "vlib.stage1:h_stage1",
-                      {"shapes": shapes, "opts": {"stop": "sym", "dry_run": "sym"}, "checks": base},
-                      reach=["C01.no-false-green(events)", "C01.no-false-red(events)", "C01.verdict==RunSpec"],
-                      min_paths=20, cost=50, validate=150 if tier == "quick" else 2000))
+        for fname, fopts in flag_shards(tier):
+            js.append(Job("run.%s%s" % (name, fname), "vlib.stage1:h_stage1",
+                          {"shapes": shapes, "opts": fopts, "checks": base},
+                          reach=["C01.no-false-green(events)", "C01.verdict==RunSpec"],
+                          min_paths=5, cost=50, validate=150 if tier == "quick" else 500))
     # selection symbolic (arbitrary tag predicate), outcomes {pass, fail, exception}
     js.append(Job("select.mixed", "vlib.stage1:h_stage1",
                   {"shapes": [F([S(1), O(1, [(1, []), (1, [])]), R([S(1)])])],
